@@ -79,6 +79,7 @@ type Lowerer struct {
 	assumed          map[string]bool
 	afterCall        []func()
 	acqPoints        []acqPoint
+	nilMapFact       map[string]int // block:var -> statement count when the nil-map fact was last stated
 	itPoints         []acqPoint
 	initializing     map[string]bool // objects being constructed (composite literal): not yet shared
 	topEnv           map[string]envEntry
@@ -574,6 +575,23 @@ func (l *Lowerer) mapVars(mt *types.Map) (dom, val, card *Term) {
 	dom = l.heapVar(base+".dom", arraySort(ks, "Bool"))
 	val = l.heapVar(base+".val", arraySort(ks, vs))
 	card = l.heapVar(base+".card", "Int")
+	// the nil map has no keys (writes to it panic, so this holds at every program point); stated for the
+	// current state only, as a ground fact
+	if l.cur != nil && !strings.Contains(dom.Name, "@") {
+		key := fmt.Sprintf("%d:%s", l.cur.ID, dom.Name)
+		n := len(l.cur.Stmts)
+		if l.nilMapFact == nil {
+			l.nilMapFact = map[string]int{}
+		}
+		if at, ok := l.nilMapFact[key]; !ok || at != n {
+			savedGuard := l.guard
+			l.guard = nil
+			l.assume(And(Eq(Select(dom, IntLit(0)), App("(as const "+arraySort(ks, "Bool")+")", arraySort(ks, "Bool"), tFalse)),
+				Eq(Select(card, IntLit(0)), IntLit(0))))
+			l.guard = savedGuard
+			l.nilMapFact[key] = len(l.cur.Stmts)
+		}
+	}
 	return
 }
 
@@ -956,10 +974,16 @@ func (l *Lowerer) globalVar(o *types.Var) *Term {
 		l.p.reg.Axiom(name, fmt.Sprintf("(and (<= %s %s) (<= %s %s))", lo, smtName(name), smtName(name), hi))
 	}
 	if isRefLike(o.Type()) {
-		// sentinel errors and similar: distinct non-nil references below every allocation
-		l.p.reg.Axiom(name, "(> "+smtName(name)+" 0)")
-		if _, isIface := o.Type().Underlying().(*types.Interface); isIface {
-			l.p.sentinels[name] = true
+		switch l.p.globalNilness(o) {
+		case 1:
+			// sentinel errors and similar: distinct non-nil references below every allocation
+			l.p.reg.Axiom(name, "(> "+smtName(name)+" 0)")
+			if _, isIface := o.Type().Underlying().(*types.Interface); isIface {
+				l.p.sentinels[name] = true
+			}
+		case -1:
+			// never assigned and initialised to nil (or not at all): the zero value
+			l.p.reg.Axiom(name, "(= "+smtName(name)+" 0)")
 		}
 	}
 	return App(name, s)
